@@ -26,7 +26,13 @@ contract(f"{REG}._get_symbol",
                   "or len(some(self._units[name].defined_symbol)) == 0) else some(self._units[name].defined_symbol))"},
          modifies=[], props=["C08"])
 
-# storing a definition (tables without a case-insensitive index: prefixes, dimensions)
+# the case-insensitive index: one set object per lower-cased spelling, no set shared between two keys
+predicate("index_ok", ["d: DDict[Str,Set[Str]]"], """
+    allocated(d) and forall[Str](lambda a: implies(a in d, allocated(d[a])))
+    and forall[Str](lambda a: forall[Str](lambda b: implies(a in d and b in d and a != b, d[a] != d[b])))
+""")
+
+# storing a definition: the exact table always; the case-insensitive index when the table has one
 cls("pint.facets.plain.definitions:NamedDefinition", fields={})
 contract(f"{REG}._helper_single_adder",
          params={"self": "Ref[GenericPlainRegistry]", "key": "Str", "value": "Ref[NamedDefinition]",
@@ -34,5 +40,69 @@ contract(f"{REG}._helper_single_adder",
          returns="None",
          requires={"alloc": "allocated(target_dict)"},
          raises={"RedefinitionError": "key in target_dict and self._on_redefinition == 'raise'"},
+         cases=[
+             {"_name": "no_index"},
+             {"_name": "unit_no_index", "value": "Ref[UnitDefinition]", "target_dict": "Dict[Str,Ref[UnitDefinition]]"},
+             {"_name": "casei", "value": "Ref[UnitDefinition]", "target_dict": "Dict[Str,Ref[UnitDefinition]]",
+              "casei_target_dict": "DDict[Str,Set[Str]]",
+              "_requires": ["index_ok(casei_target_dict)"],
+              "_add_ensures": {"indexed": "key in casei_target_dict[key.lower()]", "index_ok": "index_ok(casei_target_dict)",
+                               "index_view": "forall[Str](lambda k: forall[Str](lambda e: (k in casei_target_dict and e in casei_target_dict[k]) "
+                                             "== (old(k in casei_target_dict and e in casei_target_dict[k]) or (k == key.lower() and e == key))))"},
+              "_modifies": ["contents(target_dict)", "contents(casei_target_dict)", "contents(casei_target_dict[key.lower()])"]},
+         ],
          ensures={"stored": "contents(target_dict) == store(old(contents(target_dict)), key, value)"},
-         modifies=["contents(target_dict)"], props=["C10"])
+         modifies=["contents(target_dict)"], props=["C10", "C08"])
+
+# ---- as_delta: an explicit argument wins, None means the registry default (C08 "unless that is disabled", C06)
+from pv.decl import specfn  # noqa: E402
+
+NM = "pint.facets.nonmultiplicative.registry:GenericNonMultiplicativeRegistry"
+cls(NM, fields={"default_as_delta": "Bool"})
+specfn("ParseUC", ["Ref[GenericPlainRegistry]", "Str", "Bool", "Opt[Bool]"], "Ref[UnitsContainer]")
+contract(f"{REG}.parse_units_as_container",
+         params={"self": "Ref[GenericPlainRegistry]", "input_string": "Str", "as_delta": "Bool", "case_sensitive": "Opt[Bool]"},
+         returns="Ref[UnitsContainer]",
+         ensures={"def": "result == ParseUC(self, input_string, as_delta, case_sensitive)"},
+         allow_exc=("UndefinedUnitError", "DefinitionSyntaxError", "ValueError"),
+         modifies=[], trusted=True,
+         note="the plain parser (regex + tokenizer + name resolution) is named by a spec function; what it does is bounded (c08_names)",
+         props=["C08", "C06"])
+contract(f"{NM}.parse_units_as_container",
+         params={"self": "Ref[GenericNonMultiplicativeRegistry]", "input_string": "Str", "as_delta": "Opt[Bool]",
+                 "case_sensitive": "Opt[Bool]"},
+         returns="Ref[UnitsContainer]",
+         ensures={"explicit_argument_wins": "result == ParseUC(self, input_string, "
+                  "(self.default_as_delta if is_none(as_delta) else some(as_delta)), case_sensitive)"},
+         allow_exc=("UndefinedUnitError", "DefinitionSyntaxError", "ValueError"),
+         modifies=[], props=["C08", "C06"])
+
+# ---- @alias: every alias is stored for exact AND case-insensitive lookup, bound to the aliased unit's definition
+cls("pint.facets.plain.definitions:AliasDefinition", fields={"name": "Str", "aliases": "Seq[Str]"})
+
+contract(f"{REG}._add_alias",
+         params={"self": "Ref[GenericPlainRegistry]", "definition": "Ref[AliasDefinition]"}, returns="None",
+         requires={"alloc": "allocated(self) and allocated(definition) and allocated(self._units) and index_ok(self._units_casei)"},
+         raises={"KeyError": "not (definition.name in self._units)"},
+         allow_exc=("RedefinitionError",),
+         ensures={
+             "aliases_bound_to_the_unit": "forall[Int](lambda j: implies(0 <= j and j < len(definition.aliases), "
+                                          "definition.aliases[j] in self._units and "
+                                          "self._units[definition.aliases[j]] == old(self._units[definition.name])))",
+             "aliases_in_case_insensitive_index": "forall[Int](lambda j: implies(0 <= j and j < len(definition.aliases), "
+                                                  "definition.aliases[j].lower() in self._units_casei and "
+                                                  "definition.aliases[j] in self._units_casei[definition.aliases[j].lower()]))",
+             "nothing_forgotten": "forall[Str](lambda k: implies(old(k in self._units), k in self._units))",
+             "index_ok": "index_ok(self._units_casei)"},
+         loops={0: dict(invariant={"same": "$u == old(self._units[definition.name])"}, modifies=[]),
+                1: dict(invariant={
+                    "bound": "forall[Int](lambda j: implies(0 <= j and j < idx, definition.aliases[j] in self._units and "
+                             "self._units[definition.aliases[j]] == $u))",
+                    "indexed": "forall[Int](lambda j: implies(0 <= j and j < idx, definition.aliases[j].lower() in self._units_casei "
+                               "and definition.aliases[j] in self._units_casei[definition.aliases[j].lower()]))",
+                    "kept": "forall[Str](lambda k: implies(old(k in self._units), k in self._units))",
+                    "index_ok": "index_ok(self._units_casei) and allocated(self._units)",
+                    "iter": "iterated == definition.aliases"},
+                    modifies=["contents(self._units)", "contents(self._units_casei)", "allof(Set[Str])"])},
+         bind={"u": "unit_dict[definition.name]"},
+         modifies=["contents(self._units)", "contents(self._units_casei)", "allof(Set[Str])"], props=["C08", "C10"])
